@@ -7,6 +7,9 @@ UNITS = ["ExponentialMovingAverage", "TrueRange", "AverageTrueRange", "MovingAve
 RULE = {"ctor": "E1", "output": "E2", "post-state": "E2", "feed": "E3", "feed-count": "E3", "feed-extra": "E3"}
 
 
+RESET_SCOPE = ["ExponentialMovingAverage", "TrueRange", "AverageTrueRange", "MovingAverageConvergenceDivergence", "KeltnerChannel", "ChandelierExit", "Minimum", "Maximum"]
+
+
 def run(tier, repo=None, tag="repo"):
     rep = Report("C02", tier)
     rep.rule("E1", "constructor wiring: every parameter term, initial state constant and nested constructor equals the documented one", 16)
@@ -17,6 +20,10 @@ def run(tier, repo=None, tag="repo"):
     for cfg in configs:
         F = ir.load(cfg, repo, tag)
         run_units("C02", UNITS, None, rep, F, lambda k: RULE.get(k, "E0"))
+    # "returns its first input unchanged and thereafter ..." restarts at reset(): the recurrence is about the stream since construction OR reset
+    rep.rule("E4", "reset() restores the constructor state of EMA, TrueRange, ATR, MACD, KeltnerChannel, ChandelierExit and the Minimum/Maximum inside it (C04's rules), so the recurrences restart there; no other method writes their state", 8)
+    import rules_c01
+    rules_c01.reset_premise(ir.load("default", repo, tag), rep, "E4", RESET_SCOPE)
     rep.configs = configs
     rep.explanation = ("each clause of C02 is a one-step recurrence or a pointwise combination of component outputs; the implementation's step function "
                        "(output and post-state as gated terms over input and pre-state, nested indicators as uninterpreted step nodes) is compared with "
